@@ -2,3 +2,4 @@ import Lemmas.Exec
 import Lemmas.ExecInv
 import Lemmas.ExecDir
 import Lemmas.Pending
+import Lemmas.Hash
